@@ -26,8 +26,8 @@ ASSUMPTIONS = [
     'matches made inside at<> are look-ahead: their nodes are part of the tree (as the property says) but need not lie inside their parent nor before their '
     'later siblings by position; for grammars with at<> the positional containment/ordering checks are replaced by the comparison with the reference order',
     'parse_tree::parse fixes apply_mode::action and rewind_mode::optional; parse_tree_to_dot and nodes over a std::string source are not covered',
-    'grammars are built from seq, sor, star, opt, at, not_at, must, try_catch_type_return_false, a directly recursive rule and named/leaf rules; the other '
-    'combinators (plus, until, rep*, if_then_else, rematch, ...) reach the tree builder through the same Control< Rule >::match frames (C08) and are not run here',
+    'grammars are built from seq, sor, star, opt, at, not_at, must, try_catch_type_return_false, plus, until, if_then_else, a directly recursive rule and named/leaf rules; the other '
+    'combinators (rep*, list, rematch, ...) reach the tree builder through the same Control< Rule >::match frames (C08) and are not run here',
     'translation options for these units: ll2c --inline-gep (address computations written out at their use) and --typed-new (operator new of a node allocates '
     'a typed object); like every translation they are validated per query against the g++ build on 20 000 inputs',
 ]
@@ -120,6 +120,35 @@ GRAMMARS = [
      {'cap': 4, 'maxch': 2, 'maxd': 1, 'maxn': 3, 'action': 'void0', 'maxres': 1, 'stack': ['all'],
       'reach': [('e.r == 1 && %s && c12_veto(101, 0) == 2 && ts_id[0] == 102' % OK0, "the rule's own void apply0 throws, the guard catches: no node of that rule is left"),
                 ('e.r == 1 && ts_id[0] == 101', 'guarded branch kept')]}),
+    ('plus', N0('plus< %s >, %s' % (N1, S1)),
+     {'all': ALL, 'fold': {100: 'fold', 101: 'store'}},
+     {'cap': 4, 'maxch': 3, 'maxd': 2, 'maxn': 5,
+      'reach': [('e.r == 1 && ts_n >= 3', 'several sibling nodes'), ('e.r == 0 && %s' % OK0, 'nodes built, then the rule fails: no tree')]}),
+    ('until', N0('until< %s, %s >' % (N2, N1)),
+     {'all': ALL},
+     {'cap': 4, 'maxch': 3, 'maxd': 2, 'maxn': 5,
+      'reach': [('e.r == 1 && ts_n >= 3', 'body nodes followed by the terminating node'), ('e.r == 0 && %s' % OK0, 'body matched, then the loop fails: no tree')]}),
+    ('ite', N0('if_then_else< %s, %s, named< 3, %s > >' % (N1, N2, S1)),
+     {'all': ALL, 'else_only': {100: 'store', 103: 'store'}},
+     {'cap': 4, 'maxch': 2, 'maxd': 2, 'maxn': 4,
+      'reach': [('e.r == 1 && ts_n == 2 && ts_id[1] == 103', 'else-branch: the node of the condition that matched nothing is not there'), ('e.r == 0', 'no tree')],
+      'reach_tag': {'all': [('e.r == 1 && ts_n == 3', 'condition and then-branch')], 'else_only': [('e.r == 1 && ts_n == 1 && %s' % OK0, 'then-branch taken, nothing selected in it')]}}),
+    # rules that have exactly one sub-rule and can fail after that sub-rule built a node (not_at<R>, rep<2,R>), not selected, directly under opt/sor
+    ('wrap_not_at', N0('opt< not_at< %s > >, %s, %s' % (N1, N1, N2)),
+     {'all': ALL, 'outer_out': {101: 'store', 102: 'store'}},
+     {'cap': 5, 'maxch': 2, 'maxd': 2, 'maxn': 4,
+      'reach': [('e.r == 1 && %s' % OK0, 'not_at<> failed because its rule matched (node dropped), the same rule then matches for real')]}),
+    ('wrap_rep', 'sor< rep< 2, %s >, seq< %s, %s > >' % (N1, N1, N2),
+     {'all': ALL},
+     {'cap': 5, 'maxch': 2, 'maxd': 1, 'maxn': 3,
+      'reach': [('e.r == 1 && %s && ts_id[ts_n - 1] == 102' % OK0, 'rep<2,R> failed after one match of R, the alternative builds the tree'), ('e.r == 1 && ts_n == 2 && ts_id[1] == 101', 'rep<2,R> kept')]}),
+    # a control that raises from failure() (must_if<>): the selected rule's frame must be gone before the exception leaves
+    ('mustif', 'sor< try_catch_type_return_false< verif_exc, named< 0, %s, named< 1, %s > > >, %s >' % (S0, S2, N2),
+     {'all': ALL},
+     {'cap': 5, 'maxch': 2, 'maxd': 2, 'maxn': 4, 'control': 'mustif', 'stack': ['all'],
+      'spec': 'sor< try_catch_type_return_false< verif_exc, named< 0, %s, must< named< 1, %s > > > >, %s >' % (S0, S2, N2),
+      'reach': [('e.r == 1 && %s && ts_n == 1 && ts_id[0] == 102' % OK0, "the selected rule's failure is turned into a global failure by the control, caught in the grammar, the alternative builds the tree"),
+                ('e.r == 1 && ts_n == 2 && ts_id[0] == 100', 'guarded branch kept')]}),
     ('deep', 'sor< seq< ' + 'seq< ' * 9 + N1 + ' >' * 9 + ', %s >, %s >' % (S1, N2),
      {'all': ALL},
      {'cap': 13, 'maxch': 2, 'maxd': 1, 'maxn': 3, 'mem_gb': 8, 'N': 2, 'maxres': 1, 'thorough': {'N': 2},
@@ -147,12 +176,12 @@ def plan(ctx):
             cap, maxch, maxd, maxn = o['cap'], o['maxch'], o['maxd'], o['maxn']
             action = o.get('action')
             defs = o.get('defs')
-            htext, gen = treegen.harness_text(gtext, sel, doc, n, K, maxch, maxd, maxn, defs=defs, maxrec=o.get('maxrec', 3), maxres=o.get('maxres', 3),
+            htext, gen = treegen.harness_text(o.get('spec', gtext), sel, doc, n, K, maxch, maxd, maxn, defs=defs, maxrec=o.get('maxrec', 3), maxres=o.get('maxres', 3),
                                               action=action, reach=o.get('reach', []) + o.get('reach_tag', {}).get(tag, []), lookahead=o.get('lookahead', False))
             if sel == 'all':
                 wtext = treegen.wrapper_text_all(gtext, gen, maxch, maxd)
             else:
-                wtext = treegen.wrapper_text(gtext, sel, defs, maxch, maxd, action=action)
+                wtext = treegen.wrapper_text(gtext, sel, defs, maxch, maxd, action=action, control=o.get('control'))
             unit = ctx.unit('c12_%s_%s' % (gname, tag), text=wtext, cxxflags=['-I', stub, '-DVSTUB_CAP=%d' % cap], ll2c=['--inline-gep', '--typed-new'])
             h = ctx.write('h_%s_%s.c' % (gname, tag), htext)
             total = sum(maxch ** (k + 1) for k in range(maxd))
@@ -176,6 +205,7 @@ def plan(ctx):
                                    bounds={'N': n, 'K': K, 'grammar': gtext, 'selector': sel if sel == 'all' else {str(k): v for k, v in sel.items()},
                                            'vector_capacity': cap, 'max_children': maxch, 'max_depth': maxd, 'max_nodes': maxn, 'checked': mode,
                                            'action': {'bool': 'vf::act_bool (veto / throw)', 'void0': 'vf::act0_void (throw)'}.get(action, 'nothing'),
+                                           'control': 'must_if< errors, vcontrol >::control (rule 101 raises from failure())' if o.get('control') else 'vcontrol',
                                            'mode': 'apply_mode::action, rewind_mode::optional (fixed by parse_tree::parse)'},
                                    note='tree returned by the real parse_tree::parse == surviving derivation of the selected rules; result == plain parse'
                                         if mode == 'tree' else 'builder stack after the run: exactly the root, nothing below it unless the parse succeeded'))
